@@ -505,7 +505,7 @@ func standinNested(rng *rand.Rand, depth int, sb *[]byte) {
 
 // standinTokens: the fragments the bounded inputs are composed of.
 var standinTokens = []string{
-	"a", "b", "c", "[b\nc]", "[b\n> c]", " ", "  ", "\n", "\r\n", "\t", "*", "**", "_", "__", "`", "``", "[", "]", "![", "(", ")", "(/u)", "[a]", "[a]: /u\n", "[b c]: </v> 't'\n",
+	"a", "b", "c", "[b\nc]", "[b\n> c]", "[a\nb]", "[a\nb][]", "![a\nb]", " ", "  ", "\n", "\r\n", "\t", "*", "**", "_", "__", "`", "``", "[", "]", "![", "(", ")", "(/u)", "[a]", "[a]: /u\n", "[b c]: </v> 't'\n",
 	"<", ">", "<b>", "<a\n", "href='x'>", "</b>", "<!--", "-->", "<https://a.b>", "<x@y.z>", "\\", "&", "&amp;", "&#x41;", ";", "!", "\"t\"", "'", ":", "/u",
 	"> ", "- ", "+ ", "1. ", "12) ", "# ", "## ", "#", "===\n", "---\n", "```\n", "~~~", "    ", "é", " ", "\x00", "<div>\n", "<?x", "?>", "|", ".", "=", "-",
 }
